@@ -36,8 +36,9 @@ Open Scope Z_scope.
 (* ------------------------------------------------------------------ session *)
 
 (* s_asn4: negotiated.asn4; s_fams: negotiated.families; s_addpath: families with addpath.receive
-   (direction IN).  Extended next hop (negotiated.nexthop) is assumed not negotiated. *)
-Record sess := mkS { s_asn4 : bool; s_fams : list (Z * Z); s_addpath : list (Z * Z) }.
+   (direction IN); s_extnh: the <AFI, SAFI> of negotiated.nexthop (RFC 8950, next hop AFI ipv6).  Gen_AttrTable.EXTNH_PER_FAMILY (probed by T5) tells
+   which of the two next hop length rules the tree under check applies. *)
+Record sess := mkS { s_asn4 : bool; s_fams : list (Z * Z); s_addpath : list (Z * Z); s_extnh : list (Z * Z) }.
 
 Definition fam_in (l : list (Z * Z)) (afi safi : Z) : bool :=
   existsb (fun p => (fst p =? afi) && (snd p =? safi)) l.
@@ -161,12 +162,25 @@ Definition dec_mp_reach (s : sess) (v : list Z) : vres :=
   if zlen v <? 4 + len_nh + 1 then VNotify 3 9 else
   match family_size afi safi with
   | None => VNotify 3 0
-  | Some (lens, rd) =>
+  | Some (lens0, rd) =>
+    (* `if negotiated.nexthop:` the legal lengths are looked up again under the AFI the length suggests,
+       whatever the family of the NLRI; Family.size[(nh_afi, safi)] missing = KeyError *)
+    match (if EXTNH_PER_FAMILY then
+             (* the tree adds the IPv6 lengths of the SAFI for the <AFI, SAFI> of negotiated.nexthop only *)
+             Some (Some (lens0 ++ (if fam_in (s_extnh s) afi safi
+                                   then match family_size 2 safi with Some (l, _) => l | None => [] end else [])))
+           else if is_nil (s_extnh s) then Some (Some lens0) else
+           if zin len_nh [16; 32; 24] then Some (option_map fst (family_size 2 safi)) else
+           if zin len_nh [4; 12] then Some (option_map fst (family_size 1 safi)) else None) with
+    | None => VNotify 3 0
+    | Some None => VOther
+    | Some (Some lens) =>
     if negb (zin len_nh lens) then VNotify 3 0 else
     if negb (rd =? 0) && negb (sumz (firstn 8 (skipn 4 v)) =? 0) then VNotify 3 0 else
     if negb (nth (Z.to_nat (4 + len_nh)) v 0 =? 0) then VNotify 3 0 else
     if zlen v <=? 4 + len_nh + 1 then VNotify 3 0 else
     VOk (VBytes v)
+    end
   end.
 
 (* MPURNLRI.unpack_attribute *)
